@@ -3,6 +3,13 @@
    [final K init ops] is the model state after ANY list of operations (config updates that
    add / remove / reorder priorities or change a child's policy type, child state reports,
    passage of time with init-timer expirations, Close, and malformed operations). *)
+(* SCOPE: the theorems hold for histories WITHOUT rejecting child policies
+   (no_failing_types ops = true: no config update uses policy type 2 or 3, the stub policies
+   that reject their first UpdateClientConnState).  On that sub-domain the machine of
+   model/Priority.v coincides with its *_nf copy (proof/Priority_proofs.v, final_eq /
+   run_from_eq / clauses_from_eq), on which the invariants are proved.  Histories WITH rejecting
+   child policies (failover from inside start(), error picker -4) are checked by the
+   correspondence run and the clauses on implementation traces only. *)
 From Coq Require Import List ZArith Bool.
 From VLib Require Import Codec Machine.
 From VModel Require Import Priority.
@@ -18,7 +25,8 @@ Open Scope Z_scope.
    - every lower priority (post) is not started (its policy is closed);
    - the state/picker last given to the parent is the state/picker of the child in use;
    - childInUse is [best]: the first READY / IDLE / within-timeout child, else the last. *)
-Theorem C39_in_use_is_best_and_picker : forall K ops, let st := final K init ops in
+Theorem C39_in_use_is_best_and_picker : forall K ops, no_failing_types ops = true ->
+  let st := final K init ops in
   closed st = false -> prios st <> [] ->
   exists pre post c,
     prios st = pre ++ inuse st :: post /\ NoDup (prios st) /\
@@ -30,50 +38,63 @@ Theorem C39_in_use_is_best_and_picker : forall K ops, let st := final K init ops
     (forall n, In n post -> exists c', children st n = Some c' /\ started c' = false) /\
     parent st = (cstate c, picker c) /\
     best (children st) (prios st) = Some (inuse st).
-Proof. exact selection_reading. Qed.
+Proof. exact selection_reading_h. Qed.
 Print Assumptions C39_in_use_is_best_and_picker.
 
 (* Lower priorities are only started after all higher ones failed or timed out: whenever a
    child is started, every priority above it is started, has no running init timer and is
    in TRANSIENT_FAILURE or (timed-out) CONNECTING. *)
-Theorem C39_lower_started_only_after_failure : forall K ops m, let st := final K init ops in
+Theorem C39_lower_started_only_after_failure : forall K ops m, no_failing_types ops = true ->
+  let st := final K init ops in
   closed st = false -> is_started st m = true ->
   forall h, In h (before m (prios st)) ->
   exists c, children st h = Some c /\ started c = true /\ timer c = None /\
             (cstate c = TF \/ cstate c = CONNECTING).
-Proof. exact started_implies_higher_failed. Qed.
+Proof. exact started_implies_higher_failed_h. Qed.
 Print Assumptions C39_lower_started_only_after_failure.
 
 (* ... and are closed once a higher priority becomes READY: right after a started child n
    reports READY, no priority below n is started. *)
-Theorem C39_ready_closes_lower : forall K ops n pk, let st := final K init ops in
+Theorem C39_ready_closes_lower : forall K ops n pk, no_failing_types ops = true ->
+  let st := final K init ops in
   closed st = false -> is_started st n = true ->
   let st' := step K st [2; n; READY; pk] in
   forall m, In m (after n (prios st')) -> is_started st' m = false.
-Proof. exact ready_closes_lower. Qed.
+Proof. exact ready_closes_lower_h. Qed.
 Print Assumptions C39_ready_closes_lower.
 
 (* After Close no child policy is left started (which also stops every init timer). *)
-Theorem C39_close_stops_all : forall K ops n, let st := final K init ops in
+Theorem C39_close_stops_all : forall K ops n, no_failing_types ops = true ->
+  let st := final K init ops in
   closed st = true -> is_started st n = false.
-Proof. exact closed_nothing_built. Qed.
+Proof. exact closed_nothing_built_h. Qed.
 Print Assumptions C39_close_stops_all.
 
 (* The executable predicate that is evaluated on implementation traces holds on every
    trace of the model, for every op list. *)
 Theorem C39_holds_on_every_model_trace : forall cfg ops, cfg_wf cfg = true ->
+  no_failing_types ops = true ->
   exists obs, run cfg ops = Some obs /\ holds_b cfg ops obs = true.
-Proof. exact model_trace_holds. Qed.
+Proof. exact model_trace_holds_h. Qed.
 Print Assumptions C39_holds_on_every_model_trace.
 
 (* non-vacuity: p0 fails -> p1 in use and READY; p0 READY again -> p0 in use, p1 closed;
    p0 CONNECTING for 10 s -> failover by timer *)
 Example C39_witness :
   cfg_wf [2] = true /\
+  no_failing_types [[1;0;0;1;0]; [2;0;3;101]; [2;1;2;102]; [2;0;2;103]; [3;9]; [3;10]] = true /\
   (let st := final 2 init [[1;0;0;1;0]; [2;0;3;101]; [2;1;2;102]] in
    inuse st = 1 /\ is_started st 0 = true /\ parent st = (2, 102) /\ closed st = false) /\
   (let st := final 2 init [[1;0;0;1;0]; [2;0;3;101]; [2;1;2;102]; [2;0;2;103]] in
    inuse st = 0 /\ is_started st 1 = false /\ parent st = (2, 103)) /\
   (let st := final 2 init [[1;0;0;1;0]; [3;9]] in inuse st = 0 /\ is_started st 1 = false) /\
   (let st := final 2 init [[1;0;0;1;0]; [3;10]] in inuse st = 1 /\ is_started st 1 = true).
+Proof. vm_compute. repeat split. Qed.
+
+(* outside the hypothesis (illustration only): p0's policy (type 2) rejects its first update,
+   so p0 fails inside start() and p1 is started and in use at once *)
+Example C39_rejecting_policy_illustration :
+  no_failing_types [[1;0;2;1;0]] = false /\
+  (let st := final 2 init [[1;0;2;1;0]] in
+   inuse st = 1 /\ is_started st 0 = true /\ is_started st 1 = true /\ parent st = (1, 0)).
 Proof. vm_compute. repeat split. Qed.
